@@ -175,6 +175,8 @@ def run(ctx):
             fails.append((m, "DataArray.hdc.algo.spi differs from gammastd_yxt (dtype %s)" % r["acc_dtype"]))
         if r.get("grp_equal") is False:
             fails.append((m, "spi(groups=one group) differs from the ungrouped result"))
+        if r.get("kw_nodata0_equal") is not True:
+            fails.append((m, "spi(nodata=0) with a missing / different nodata attribute differs from the kernel run with nodata 0 (%s)" % r.get("kw_nodata0_equal")))
         for a, row in enumerate(c["cube"]):
             for b, px in enumerate(row):
                 why = spec_check(dict(x=px, nodata=ND, c0=0, c1=len(px)), r["out"][a][b])
